@@ -40,6 +40,17 @@ func store(name string, slot int, place string, initial ...any) txn.StoreSpec {
 }
 
 func scenariosFor(prop string, thorough bool) []*scenario {
+	if prop == "C37" {
+		// the commit-protocol monitor rides on the committer scenarios of C02 and C04
+		out := append(scenariosFor("C02", thorough), scenariosFor("C04", thorough)...)
+		var keep []*scenario
+		for _, s := range out {
+			if len(s.Env) == 0 {
+				keep = append(keep, s)
+			}
+		}
+		return keep
+	}
 	var out []*scenario
 	add := func(s *scenario) { out = append(out, s) }
 	switch prop {
